@@ -11,8 +11,8 @@ from mc.engine import Harness, Result, V
 from mc.world import reset_globals
 
 PRE = [['set', 'v', 5], ['mut_l'], ['pattr', 'v', 'bounds', [0, 50]], ['attach'], ['attach_set', 7], ['watch'], ['watch2prec'], ['extra'],
-       ['update', 3, 4], ['selobj'], ['touch'], ['watch_unwatch']]
-POST = [['set', 'v', 6], ['update', 7, 8], ['mut_l'], ['set_l'], ['pattr', 'v', 'bounds', [0, 99]], ['leaf', 9], ['oselobj'], ['extra'], ['selobj'], ['set', 'v', 60], ['attach']]
+       ['update', 3, 4], ['selobj'], ['touch'], ['watch_unwatch'], ['slot_none']]
+POST = [['set', 'v', 6], ['update', 7, 8], ['mut_l'], ['set_l'], ['pattr', 'v', 'bounds', [0, 99]], ['leaf', 9], ['oselobj'], ['extra'], ['selobj'], ['set', 'v', 60], ['attach'], ['set', 'w', 9]]
 
 
 def mechs(tier):
@@ -101,12 +101,15 @@ class C17(Harness):
             o.param.watch(o.user_cb, ['v'], precedence=1)
         elif k == 'extra':
             o.extra.append(1)
-            if hasattr(type(o), 'slot_attr'):
+            if hasattr(type(o), 'slot_attr') and o.slot_attr is not None:
                 o.slot_attr.append('x')
         elif k == 'selobj':
             o.param.sel.objects['mid'] = len(o.param.sel.objects) + 10
         elif k == 'oselobj':
             o.param.osel.objects['mid'] = len(o.param.osel.objects) + 20
+        elif k == 'slot_none':
+            if hasattr(type(o), 'slot_attr'):
+                o.slot_attr = None          # an occupied slot holding None
         elif k == 'touch':
             o.param.sel
             o.param.l
@@ -117,7 +120,7 @@ class C17(Harness):
         s = {'values': {n: repr(v) for n, v in o.param.values().items() if n not in ('name', 'sub')},
              'sub': None if o.sub is None else (repr(o.sub.x), repr(o.sub.tags)),
              'extra': repr(o.extra), 'calls': repr(o.calls),
-             'slot': repr(getattr(o, 'slot_attr', None)),
+             'slot': repr(getattr(o, 'slot_attr', '<unset>')),
              'pattrs': {n: (repr(getattr(p, 'bounds', None)), repr(list(getattr(p, '_objects', []))), repr(dict(getattr(p, 'names', {}) or {})), p.constant)
                         for n, p in o._param__private.params.items()},
              'name': o.name,
